@@ -87,7 +87,27 @@ def op_text(op, tier='quick'):
     if op.get('bad'):
         return BAD_TEXTS[op['bad']]
     fl = corpus.corpus('thorough')
-    return fl[op['file'] % len(fl)].text
+    text = fl[op['file'] % len(fl)].text
+    if op.get('tail') == 'comment':
+        # a valid file whose last line is a comment without a line break: the lexer ends in its comment state
+        text = text.rstrip('\r\n') + '  -- the end, no line break after this'
+    elif op.get('tail') == 'first-line':
+        # real tokens on the very first line
+        text = text.lstrip()
+        if text.startswith('--'):
+            text = text.split('\n', 1)[1].lstrip()
+    return text
+
+
+READ_TREE = {
+    'FOO-MIB': 'FOO-MIB DEFINITIONS ::= BEGIN\n-- spelled as given, no extension\nEND\n',
+    'foo-mib.txt': 'FOO-MIB DEFINITIONS ::= BEGIN\n-- lower case with .txt\nEND\n',
+    'FOO-MIB.mib': 'FOO-MIB DEFINITIONS ::= BEGIN\n-- upper case with .mib\nEND\n',
+    'sub/FOO-MIB.my': 'FOO-MIB DEFINITIONS ::= BEGIN\n-- in a sub-directory\nEND\n',
+    'foo.txt': 'FOO DEFINITIONS ::= BEGIN\n-- fuzzy: -mib removed\nEND\n',
+    'BAR': 'BAR DEFINITIONS ::= BEGIN\nEND\n',
+    'bar-mib.mib': 'BAR-MIB DEFINITIONS ::= BEGIN\nEND\n',
+}
 
 
 def execute(inst, op, results):
@@ -116,8 +136,11 @@ def execute(inst, op, results):
         for n in op.get('absent', ()):
             inst.texts.pop(n, None)
         inst.written.clear()
+        copts = dict(op.get('options', {}))
+        if copts.pop('keepLayout', None):
+            copts['textFilter'] = lambda symbol, text: text
         try:
-            R = c.compile(*op['requested'], **op.get('options', {}))
+            R = c.compile(*op['requested'], **copts)
         except error.PySmiError as e:
             return exc_obs(e)
         except Exception as e:  # noqa
@@ -128,6 +151,30 @@ def execute(inst, op, results):
         if op.get('keep_text'):
             obs['text'] = dict((k, v) for k, v in sorted(inst.written.items()) if k in specs)
         return obs
+    if kind == 'read':
+        # which of several differently spelled candidate files a directory reader picks
+        import os
+        from pysmi.reader.localfile import FileReader
+        root = core.new_root('hread')
+        try:
+            with core.unhooked():
+                for rel, txt in sorted(READ_TREE.items()):
+                    if rel in op.get('omit', ()):
+                        continue
+                    pth = os.path.join(root, rel)
+                    os.makedirs(os.path.dirname(pth), exist_ok=True)
+                    with open(pth, 'w') as f:
+                        f.write(txt)
+                    os.utime(pth, (core.EPOCH0 - 500, core.EPOCH0 - 500))
+            try:
+                info, text = FileReader(root).setOptions(**op.get('ropts', {})).getData(op['name'])
+                return ['READ', info.file, info.name, sha(text)]
+            except error.PySmiError as e:
+                return exc_obs(e)[:2] + ['reader']
+            except Exception as e:  # noqa
+                return ['FOREIGN'] + exc_obs(e)[1:2]
+        finally:
+            core.drop_root(root)
     if kind == 'index':
         c, cg = inst.compiler('json')
         R = op.get('_results')
